@@ -317,7 +317,7 @@ impl<'data> ProguardCache<'data> {
         // At this point, we know how many members/members-by-params each class has because we kept count,
         // but we don't know where each class's entries start. We'll rectify that below.
 
-        let mut writer = watto::Writer::new(writer);
+        let mut writer = AlignedWriter::new(writer);
         let string_bytes = string_table.into_bytes();
 
         let num_members = classes.values().map(|c| c.class.members_len).sum::<u32>();
@@ -336,7 +336,7 @@ impl<'data> ProguardCache<'data> {
         };
 
         writer.write_all(header.as_bytes())?;
-        writer.align_to(8)?;
+        writer.align_to_8()?;
 
         let mut members = Vec::new();
         let mut members_by_params = Vec::new();
@@ -353,13 +353,13 @@ impl<'data> ProguardCache<'data> {
             );
             writer.write_all(c.class.as_bytes())?;
         }
-        writer.align_to(8)?;
+        writer.align_to_8()?;
 
         writer.write_all(members.as_bytes())?;
-        writer.align_to(8)?;
+        writer.align_to_8()?;
 
         writer.write_all(members_by_params.as_bytes())?;
-        writer.align_to(8)?;
+        writer.align_to_8()?;
 
         writer.write_all(&string_bytes)?;
 
@@ -409,6 +409,35 @@ impl<'data> ProguardCache<'data> {
 
     pub(crate) fn read_string(&self, offset: u32) -> Result<&'data str, watto::ReadStringError> {
         StringTable::read(self.string_bytes, offset as usize)
+    }
+}
+
+/// A wrapper around a [`Write`] that keeps track of the number of bytes written
+/// and can pad the output to an 8-byte boundary.
+///
+/// In contrast to [`watto::Writer::align_to`], padding is written with
+/// [`Write::write_all`], so a sink that accepts only part of the padding
+/// (or nothing at all) is handled the same way as for any other section.
+struct AlignedWriter<W> {
+    inner: W,
+    pos: usize,
+}
+
+impl<W: Write> AlignedWriter<W> {
+    fn new(inner: W) -> Self {
+        Self { inner, pos: 0 }
+    }
+
+    fn write_all(&mut self, bytes: &[u8]) -> std::io::Result<()> {
+        self.inner.write_all(bytes)?;
+        self.pos += bytes.len();
+        Ok(())
+    }
+
+    fn align_to_8(&mut self) -> std::io::Result<()> {
+        const PADDING_BYTES: [u8; 8] = [0; 8];
+        let padding = (8 - self.pos % 8) % 8;
+        self.write_all(&PADDING_BYTES[..padding])
     }
 }
 
